@@ -206,6 +206,43 @@ T, T2 = Schema(t_list), Schema(t_list)
 {tail}
 """
         out.append(mk_case(f"c18.seq.shared_rule_list.{part}", [("t", "int"), ("u1", U), ("u2", "int")], body, pre=[f"BU({L}, t, u1, u2)"], stubs=["sym_repr"]))
+    # T's rule paths carry datum / multiplicity modifiers: they must survive re-rooting
+    body = """
+doc = {'a': {'xs': [u1, u2, 3], 'm': {'k': u1}}, 'xs': [0]}
+t1 = Rule(DataPath('xs').length(), Value.greater_than(t))
+t2 = Rule(DataPath('m').map_keys(), Value.in_([['k'], ['j']]))
+t3 = Rule(DataPath('xs', ListValue()).dtype(), Value.in_([int, bool]))
+T = Schema([t1, t2, t3])
+S = Schema([])
+S.add_schema(T, DataPath('a'))
+sv, tv = S.validate(doc), T.validate(doc['a'])
+ok = same('S judges what lies at R as T does', (sv.is_valid, sv.num_failures, sv.num_rules_tested), (tv.is_valid, tv.num_failures, tv.num_rules_tested))
+ok = ok and same('failing paths re-rooted', sorted(tx(tuple(f.path)) for rt in sv.rule_tests for f in rt.failures), sorted(tx(('a',) + tuple(f.path)) for rt in tv.rule_tests for f in rt.failures))
+return ok
+"""
+    out.append(mk_case("c18.add.path_modifiers", [("t", "int"), ("u1", "Union[int, bool, None]"), ("u2", "int")], body, pre=[f"BU({L}, t, u1, u2)"], stubs=["sym_repr"]))
+    # a schema added to itself
+    body = """
+doc = {'a': {'p': u1, 'a': {'p': u2}}, 'p': u2}
+S = Schema([Rule(('p',), Value.greater_than(t)), Rule(('a', 'p'), Value.is_instance(int))])
+S.add_schema(S, DataPath('a'))
+ok = note('four rules', len(S.rules) == 4)
+fresh = Schema([Rule(('p',), Value.greater_than(t)), Rule(('a', 'p'), Value.is_instance(int)), Rule(('a', 'p'), Value.greater_than(t)), Rule(('a', 'a', 'p'), Value.is_instance(int))])
+v, f = S.validate(doc), fresh.validate(doc)
+ok = ok and same('judges like the explicitly built schema', (v.is_valid, v.num_failures, v.num_rules_tested), (f.is_valid, f.num_failures, f.num_rules_tested))
+return ok
+"""
+    out.append(mk_case("c18.add.self", [("t", "int"), ("u1", "Union[int, bool, None]"), ("u2", "int")], body, pre=[f"BU({L}, t, u1, u2)"], stubs=["sym_repr"], budget=20))
+    # data-path arguments inside T's conditions refer to T's document, i.e. to what lies at R (open known finding C18-patharg-not-rerooted)
+    body = """
+doc = {'a': {'x': u1, 'ref': u2}, 'ref': t}
+T = Schema([Rule(('x',), Value.equal_to(DataPath('ref')))])
+S = Schema([])
+S.add_schema(T, DataPath('a'))
+sv, tv = S.validate(doc), T.validate(doc['a'])
+return same('S judges what lies at R as T does', (sv.is_valid, sv.num_failures), (tv.is_valid, tv.num_failures))
+"""
+    out.append(mk_case("c18.add.patharg_in_T", [("t", "int"), ("u1", "int"), ("u2", "int")], body, pre=["I64(t, u1, u2)"], stubs=["sym_repr"], known="C18-patharg-not-rerooted"))
     # the root is a prefix of T's own rule paths; an already combined schema added again under the same name
     body = f"""
 {expect_block()}
